@@ -283,12 +283,12 @@ impl Store {
             let gc_tx = self.gc_tx.clone();
 
             #[cfg(xs_verif)]
-            crate::verif::expect_thread("history");
+            let verif_ticket = crate::verif::expect_thread("history");
             // Spawn OS thread to handle historical events
             std::thread::spawn(move || {
                 let mut last_id = None;
                 #[cfg(xs_verif)]
-                let _verif_scope = crate::verif::thread_scope("history");
+                let _verif_scope = crate::verif::thread_scope("history", verif_ticket);
                 // locals are dropped before the scope guard, captured variables after it
                 #[cfg(xs_verif)]
                 let (tx_clone, store, options, gc_tx, done_tx) =
@@ -713,10 +713,10 @@ impl Store {
 
 fn spawn_gc_worker(mut gc_rx: UnboundedReceiver<GCTask>, store: Store) {
     #[cfg(xs_verif)]
-    crate::verif::expect_thread("gc");
+    let verif_ticket = crate::verif::expect_thread("gc");
     std::thread::spawn(move || {
         #[cfg(xs_verif)]
-        let _verif_scope = crate::verif::thread_scope("gc");
+        let _verif_scope = crate::verif::thread_scope("gc", verif_ticket);
         #[cfg(xs_verif)]
         let (mut gc_rx, store) = (gc_rx, store);
         #[cfg(xs_verif)]
